@@ -182,6 +182,24 @@ def main():
     need(mf, "modify_factor_p", "for (i = 0, j = 0; i < nH2; i++) { F[nF++] = H2[i]; while (G[j] != H2[i]) j++; for (k = j+i; k+1 < nG; k++) G[k-i] = G[k-i+1];")
     need(mf, "modify_factor_p", "nG -= nH2; nH2 = 0; qsort(G, nG, sizeof(G[0]), intcmp); qsort(F, nF, sizeof(F[0]), intcmp);")
     need(mf, "modify_factor_p", "*nF_ = nF; *nG_ = nG; *nH1_ = nH1; *nH2_ = nH2;")
+    # get_column: the column of A restricted to the rows in F that cholmod_l_rowadd receives when a coefficient re-enters the factor
+    # (the model takes a factor update to yield the factor of A_FF; that rests on this function returning exactly A[F,k])
+    m = re.search(r"cholmod_sparse\s*\*\s*get_column\s*\(", chol)
+    if not m: die("function get_column not found")
+    i0 = chol.index("{", m.end()); depth = 0; j0 = i0
+    while j0 < len(chol):
+        if chol[j0] == "{": depth += 1
+        elif chol[j0] == "}":
+            depth -= 1
+            if depth == 0: break
+        j0 += 1
+    gc = norm(chol[i0:j0 + 1])
+    need(gc, "get_column", "R = cholmod_l_allocate_sparse(A->nrow, 1, nF, false, true, 0, CHOLMOD_REAL, c);")
+    need(gc, "get_column", "if (A->packed) A_col_nz = Ap[k+1]-Ap[k]; else A_col_nz = Anz[k];")
+    need(gc, "get_column", "nz = 0; for (i = 0; i < nF; i++) { for (j = 0; j < A_col_nz; j++) { if (Ai[Ap[k]+j] == Fset[i]) { Ri[nz] = Ai[Ap[k]+j]; Rx[nz] = Ax[Ap[k]+j]; nz++; } } }")
+    need(gc, "get_column", "if (iPerm != NULL) { for (i = 0; i < nz; i++) { row = Ri[i]; Ri[i] = iPerm[row]; } }")
+    need(gc, "get_column", "Rp[0] = 0; Rp[1] = nz; return(R);")
+    need(mf, "modify_factor_p", "col = get_column(A, H2[i], iPerm, F, nF, c);")
     mfo = norm(function_body(chol, "modify_factor"))
     need(mfo, "modify_factor", "return(modify_factor_p(A, L, F, nF_, G, nG_, H1, nH1_, H2, nH2_, update, verbose, c));")
     # ---- Lawson-Hanson (NnlsModel2.lh_step / lh_inner): every decision verbatim --------------------------
